@@ -49,7 +49,11 @@ Proof. intros n. apply Inv_unfold_l. apply ops_inv_l. apply Inv_empty. Qed.
 Lemma ops_wf_unfold_l (lower : lbl -> lbl) (w : world) :
   (ops_wf lower w [] <-> True)
   /\ forall o r, ops_wf lower w (o :: r) <->
-       (match o with AddTaxon t => t < w_next w | _ => True end)
+       (match o with
+        | AddTaxon t => t < w_next w
+        | AddTaxa ts => forall t, In t ts -> t < w_next w
+        | _ => True
+        end)
        /\ ops_wf lower (fst (step lower w o)) r.
 Proof. split; [reflexivity| intros o r; reflexivity]. Qed.
 
